@@ -190,6 +190,10 @@ Cases ==
     [] Family = "assign"  -> {[kind |-> "assign", e |-> e, b |-> b, lay |-> l] : e \in Pairs \cup Terns \cup Mixed, b \in {1, 3}, l \in {"sp", "tight"}}
     [] Family = "ieee" -> {[kind |-> "tree", e |-> e, b |-> b, lay |-> "sp"] : e \in Ieee, b \in {10, 11, 12, 13}}
                           \cup {[kind |-> "tree", e |-> e, b |-> 12, lay |-> l] : e \in IeeeLit, l \in {"sp", "tight"}}
+                          \* the same shapes over the int64 bounds and +-1: every operator on every ordered pair (min / -1 wraps, min % -1 is 0)
+                          \cup {[kind |-> "tree", e |-> Bin(o, x, y), b |-> 7, lay |-> "sp"] : o \in Ops, x \in Vars4, y \in Vars4}
+                          \cup {[kind |-> "tree", e |-> Bin(c, Bin(ar, x, y), z), b |-> 7, lay |-> "sp"] :
+                                   c \in {"==", "<"}, ar \in {"+", "-", "*", "/", "%"}, x \in Vars4, y \in Vars4, z \in Vars4}
                           \cup {[kind |-> "fact", src |-> "{{ " \o f[1] \o " }}", out |-> f[2], b |-> 0, lay |-> "sp"] : f \in IeeeFacts}
                           \cup {[kind |-> "fact", src |-> "{{ x = " \o f[1] \o " }}{{ x ? \"1\" : \"0\" }}", out |-> f[2], b |-> 0, lay |-> "sp"] : f \in IeeeFacts}
     [] Family = "kindsinfix" -> {[kind |-> "tree", e |-> e, b |-> 0, lay |-> "sp"] : e \in KindsInfix}
